@@ -207,6 +207,20 @@ def job_tables(job):
     for cfg in job['configs']:
         try:
             alg = make_algebra(cfg)
+            decoys = []
+            if alg.d <= 4:
+                # other algebras over the same generators, spelled differently, constructed afterwards in the same process: they must
+                # get their own tables (tables are per algebra, not per metric); checked below like the algebra itself
+                from kingdon import Algebra as _Alg
+                names = list(alg.canon2bin)
+                kw_ = dict(signature=[int(s_) for s_ in alg.signature], start_index=alg.start_index)
+                for respell in (lambda n_: n_ if len(n_) <= 2 else 'e' + n_[:0:-1], lambda n_: 'e' + ''.join(sorted(n_[1:]))):
+                    b_ = [respell(n_) for n_ in names]
+                    if b_ != names:
+                        try:
+                            decoys.append((b_, _Alg(basis=b_, **kw_)))
+                        except Exception:
+                            pass
             fr = O.Frame(alg)
         except Exception as e:
             out['failures'].append({'config': cfg, 'error': 'construction: ' + repr(e)[:200]})
@@ -229,6 +243,18 @@ def job_tables(job):
                 if nbad <= 3:
                     out['failures'].append({'config': cfg, 'what': 'signs', 'I': I, 'J': J,
                                             'names': [alg.bin2canon[I], alg.bin2canon[J]], 'got': int(got), 'expected': exp})
+        for b_, dalg in decoys:
+            frd = O.Frame(dalg)
+            nbad_d = 0
+            for I, J in itertools.product(range(N), repeat=2):
+                out['evaluations'] += 1
+                exp = frd.o[I] * frd.o[J] * frd.o[I ^ J] * O.bsign(frd.pi[I], frd.pi[J], frd.sig) if frd.pi[I] ^ frd.pi[J] == frd.pi[I ^ J] else None
+                if exp is None or int(dalg.signs[I, J]) != exp:
+                    nbad_d += 1
+                    if nbad_d <= 2:
+                        out['failures'].append({'config': dict(cfg, basis=b_), 'what': 'signs of an algebra constructed after another algebra over the same generators',
+                                                'constructed_before': cfg, 'I': I, 'J': J, 'names': [dalg.bin2canon[I], dalg.bin2canon[J]],
+                                                'got': int(dalg.signs[I, J]), 'expected': exp})
         # cayley is that same table
         if alg.d <= 4:
             for (eI, I), (eJ, J) in itertools.product(alg.canon2bin.items(), repeat=2):
